@@ -238,6 +238,7 @@ fn as_stream(sc: &CodecSc, imp: Imp) -> StreamScenario {
         buffered: false,
         gate_calls: vec![],
         trace: sc.trace,
+        via_builder: None,
         inbound: sc.stream.clone(),
         reads: sc.segs.iter().map(|n| ReadEv::Data((*n).max(1))).collect(),
         writes: vec![],
